@@ -19,7 +19,7 @@ def sized_binary(lengths=BOUNDARY_LENS, max_size=300):
     )
 
 
-HUGE_LENS = (65535, 65536, 65537, 131072, 65488, 8192, 4096)
+HUGE_LENS = (65535, 65536, 65537, 131072, 65488, 8192, 4096, (1 << 20) + 1, (1 << 20) + 65536 + 7)
 
 
 def huge_msg():
@@ -59,8 +59,14 @@ def scalar_in(lo, hi, extra=()):
         if lo <= e <= hi:
             vals.add(e)
     vals = sorted(v for v in vals if lo <= v <= hi)
+    # sparse scalars: two to four set bits (plus, sometimes, a small dense tail) with long runs of zeros between them -
+    # what a ladder that skips empty words or windows has to get right
+    nb = max(hi.bit_length(), 2)
+    sparse = st.tuples(st.lists(st.integers(0, nb - 1), min_size=2, max_size=4, unique=True),
+                       st.sampled_from([0, 0, 1, 12345, 0xFFFF])).map(
+        lambda t: sum(1 << e for e in t[0]) + t[1]).filter(lambda v: lo <= v <= hi)
     return st.one_of(st.sampled_from(vals), uniform_int(lo, hi), uniform_int(lo, hi),
-                     st.integers(lo, hi))
+                     st.integers(lo, hi), sparse)
 
 
 def sk():
